@@ -1135,6 +1135,11 @@ void* sexp_alloc (sexp ctx, size_t size) {
     verif_last_forced_k = verif_allocs;
     verif_last_forced_idx = verif_points;
     verif_forced++;
+    if (verif_points == vs_until || verif_points == vs_only) {   /* the last forced collection of a bisection run */
+      char fr[3072];
+      verif_write_frames(fr, sizeof(fr), verif_last_bt, verif_last_bt_n);
+      sexp_verif_emit("\"e\":\"Forced\",\"k\":%ld,\"idx\":%ld,\"gcstack\":[%s]", verif_allocs, verif_points, fr);
+    }
     verif_in_gc = verif_forced_now = 1;
     sexp_gc(ctx, NULL);
     verif_in_gc = verif_forced_now = 0;
